@@ -94,6 +94,17 @@ def gen_cases(tier, seed):
         g["n"] = int(rng.integers(5, 10))
         g["h"] = W.r6(W._logu(rng, 0.03, 0.2))
         cases.append({"model": cm, "rep": ["native", "ONEONE", "CENTER", "TILDE"][j % 4], "grid": g, "level": int(j % 2), "method": "INVERSION", "iv": True})
+    if thorough:
+        # two 3-d infinite-variation chains (minutes each: the code integrates the small jumps by nested quadrature in a pool)
+        for j in range(2):
+            cm = W.gen_copula_model_spec(rng, dim=3, kind="clayton", families=[["CGMY", "VG", "HEM"], ["HEM", "CGMY", "CGMY"]][j])
+            for ms in cm["margins"]:
+                if ms["family"] == "CGMY":
+                    ms["params"]["y"] = W.r6(rng.uniform(1.05, 1.6))
+                    ms["params"]["c"] = W.r6(rng.uniform(0.3, 2.0))
+                    ms["branch"] = "1<y<2"
+            cases.append({"model": cm, "rep": "native", "grid": {"ctor": "fixed", "dim": 3, "h": W.r6(rng.uniform(0.08, 0.15)), "n": 5}, "level": 0,
+                          "method": "INVERSION", "iv": True})
     return cases
 
 
@@ -357,18 +368,15 @@ def _nd_diffusion(R, cm, model, proc, grid, label, ctor, wit):
             R.violation("nd-diffusion-finite-variation", f"{label}/{ctor}: finite variation but the variance matrix of the Brownian part is {var.tolist()}, "
                         f"diag(sigma^2) = {sig2.tolist()}", wit)
         return
-    if ctor != "fixed" or d != 2:
-        R.skip("nd-central-cell-oracle-only-for-uniform-2d-grids")
+    if ctor != "fixed":
+        R.skip("nd-central-cell-oracle-only-for-uniform-grids")
         return
     h = float(grid.h)
     half = min(h / 2, 1.0)
     oracle = C.CopulaMassOracle(cm, model.copula, model.models, [(-math.inf, math.inf)] * d)
     for k in range(d):
-        other = 1 - k
-
-        def layer(s, sgn):
-            a, b = [0.0] * d, [0.0] * d
-            a[other], b[other] = -half, half
+        def layer(s, sgn, k=k):
+            a, b = [-half] * d, [half] * d
             if sgn > 0:
                 a[k], b[k] = s, half
             else:
@@ -390,32 +398,39 @@ def _nd_diffusion(R, cm, model, proc, grid, label, ctor, wit):
             R.violation("nd-diffusion-infinite-variation", f"{label}/{ctor} (h = {h}): variance of the Brownian part of margin {k} = {float(var[k, k])!r}, "
                         f"sigma^2 + second moment of the jumps inside the central cell = {want!r} (layer-cake quadrature +-{err:.1e}; "
                         f"marginal bound {float(model.models[k].levy_triplet.nu.integrate_against_xx(-half, half))!r})", wit)
-    # off-diagonal entry: int x_0 x_1 dnu over the central cell = sum over the four quadrants of (+-) int int nu(quadrant corner box) ds_0 ds_1
-    def cross(swap):
+    # off-diagonal entries: int x_i x_j dnu over the central cell = sum over the four quadrants of (+-) int int nu(quadrant corner box) ds_i ds_j
+    def cross(i, j, swap):
         """adaptive (QUADPACK) integration per quadrant; the two orders of integration use different node sets"""
         from scipy.integrate import dblquad
 
+        def box(si, sj, p, q):
+            a, b = [-half] * d, [half] * d
+            a[i], b[i] = (si, half) if p > 0 else (-half, -si)
+            a[j], b[j] = (sj, half) if q > 0 else (-half, -sj)
+            return a, b
+
         tot = 0.0
+        tiny = 1e-9 * half
         for p in (1, -1):
             for q in (1, -1):
                 def f(s_in, s_out, p=p, q=q):
-                    s0, s1 = (s_in, s_out) if swap else (s_out, s_in)
-                    a = [s0 if p > 0 else -half, s1 if q > 0 else -half]
-                    b = [half if p > 0 else -s0, half if q > 0 else -s1]
-                    return p * q * oracle.mass(a, b)
+                    si, sj = (s_in, s_out) if swap else (s_out, s_in)
+                    return p * q * oracle.mass(*box(si, sj, p, q))
 
-                tiny = 1e-9 * half
-                if oracle.mass([tiny if p > 0 else -half, tiny if q > 0 else -half], [half if p > 0 else -tiny, half if q > 0 else -tiny]) == 0.0:
+                if oracle.mass(*box(tiny, tiny, p, q)) == 0.0:
                     continue        # no mass in this quadrant (eta in {0, 1}, dependent / independent components)
                 tot += dblquad(f, 0.0, half, 0.0, half, epsabs=1e-6, epsrel=1e-6)[0]
         return tot
 
-    c1, c2 = cross(False), cross(True)
-    errc = abs(c2 - c1)
-    tolc = 1e-3 / h ** (d - 2) + 1e-6 * abs(c2) + 10 * errc
-    R.hit("nd_central_cell_cross_moments")
-    if not (abs(var[0, 1] - c2) <= tolc and abs(var[1, 0] - c2) <= tolc):
-        R.violation("nd-diffusion-infinite-variation-cross-term", f"{label}/{ctor} (h = {h}): covariance of the Brownian parts = {float(var[0, 1])!r}, "
-                    f"cross moment of the jumps inside the central cell = {c2!r} (adaptive quadrature of the layer-cake integrand; other order of integration: {c1!r})", wit)
-    if tolc < 0.25 * abs(c2):
-        R.hit("nd_central_cell_cross_moments_decisive")
+    for i in range(d):
+        for j in range(i + 1, d):
+            c1, c2 = cross(i, j, False), cross(i, j, True)
+            errc = abs(c2 - c1)
+            tolc = 1e-3 / h ** (d - 2) + 1e-6 * abs(c2) + 10 * errc
+            R.hit("nd_central_cell_cross_moments")
+            if not (abs(var[i, j] - c2) <= tolc and abs(var[j, i] - c2) <= tolc):
+                R.violation("nd-diffusion-infinite-variation-cross-term", f"{label}/{ctor} (h = {h}): covariance of the Brownian parts of margins {i}, {j} = "
+                            f"{float(var[i, j])!r}, cross moment of the jumps inside the central cell = {c2!r} (adaptive quadrature of the layer-cake "
+                            f"integrand; other order of integration: {c1!r})", wit)
+            if tolc < 0.25 * abs(c2):
+                R.hit("nd_central_cell_cross_moments_decisive")
